@@ -382,6 +382,10 @@ class BackupNode(Entity):
         if seq >= self._applied_seq_by_key.get(key, 0):
             self._applied_seq_by_key[key] = seq
             yield from self._store.put(key, value)
+        else:
+            # The newer write may still be in flight to the store: take as long
+            # as applying would, so this acknowledgement cannot precede it.
+            yield self._store.write_latency
 
         self._replications_applied += 1
         self._last_applied_seq = max(self._last_applied_seq, seq)
